@@ -125,3 +125,43 @@ func c01PrivateCtor(c *Ctx, r *Report) {
 	}
 	r.check(len(problems) == 0, "C01.R4.private-ctor", "PrivateHandle", c.pos(fn.Pos()), "generator() per record", "%s", strings.Join(problems, "; "))
 }
+
+// c01EscapeDuality: text fields are kept in memory as escaped presentation text. A packer that decodes backslash
+// escapes (\\c, \\DDD) therefore has a dual that produces them: an unpacker that stores the wire octets verbatim
+// hands the packer a text in which every backslash octet of the wire value is read as the start of an escape, so
+// unpack followed by pack changes the octets.
+func c01EscapeDuality(c *Ctx, r *Report) {
+	r.rule("C01.R7.escape-duality", 4, "a codec pair either both treats its text as escaped (pack decodes, unpack encodes) or neither does")
+	e := newAliasEngine(c)
+	reaches := func(fname string, names ...string) (bool, bool) {
+		f := c.ssaFunc(fname)
+		if f == nil {
+			return false, false
+		}
+		for g := range e.reachable([]*ssa.Function{f}) {
+			gn := g.Name()
+			if o := g.Origin(); o != nil {
+				gn = o.Name()
+			}
+			for _, n := range names {
+				if gn == n {
+					return true, true
+				}
+			}
+		}
+		return false, true
+	}
+	for _, pair := range [][2]string{{"packString", "unpackString"}, {"packStringTxt", "unpackStringTxt"}, {"packStringOctet", "unpackStringOctet"}, {"packDomainName", "UnpackDomainName"}} {
+		dec, ok1 := reaches(pair[0], "dddToByte", "isDDD")
+		enc, ok2 := reaches(pair[1], "escapeByte")
+		if !ok1 || !ok2 {
+			r.cerr("C01.R7.escape-duality", pair[0]+"/"+pair[1], "function not found")
+			continue
+		}
+		pos := ""
+		if fd := c.decl(pair[1]); fd != nil {
+			pos = c.pos(fd.Pos())
+		}
+		r.check(dec == enc, "C01.R7.escape-duality", pair[0]+"/"+pair[1], pos, fmt.Sprintf("decodes=%v encodes=%v", dec, enc), "%s decodes backslash escapes but %s stores the wire octets verbatim: a value containing a backslash (or, for the printer, a quote) is changed by unpack followed by pack, and is printed as text that does not read back to the same octets", pair[0], pair[1])
+	}
+}
